@@ -138,6 +138,7 @@ func TestC07(t *testing.T) {
 		msg := assemble(rt, "layout", p)
 		s.model.learnRequest(L, srcIP, msg)
 		V.Journal(t.Name()+"/user-agents", c07Case{vi, g, srcPort, own.String(), stamp, jsonBytes(msg.Bytes())})
+		s.in.expect(msg.Bytes())
 		if err := send(msg.Bytes()); err != nil {
 			V.HarnessError(rt, "send: %v", err)
 		}
@@ -196,6 +197,7 @@ func TestC07(t *testing.T) {
 		}
 		stamped := stampModel(own, stamp, srcIP, srcPort)
 		hop, ok := s.model.responseHop([]AVia{{}, stamped})
+		s.in.expect(resp)
 		if err := bsend(resp); err != nil {
 			V.HarnessError(rt, "backend send: %v", err)
 		}
@@ -268,6 +270,7 @@ func TestC07(t *testing.T) {
 			desc = append(desc, fmt.Sprintf("%s from %s:%d", p.id, p.src.ip, p.src.port))
 		}
 		V.Journal(t.Name()+"/bursts", desc)
+		s.in.expect(wires...)
 		for i, p := range plan {
 			if err := p.src.sendUDP(l.Addr, l.UDPPort, wires[i]); err != nil {
 				V.HarnessError(rt, "send: %v", err)
@@ -341,6 +344,7 @@ func TestC07(t *testing.T) {
 		msg := assemble(rt, "layout", p)
 		// learning: the request is received through the per-connection listener (address = local side of the proxy's connection)
 		V.Journal(t.Name()+"/backend-connection", c07Case{vi, g, bport, own.String(), stamp, jsonBytes(msg.Bytes())})
+		s.in.expect(msg.Bytes())
 		if err := conn.send(msg.Bytes()); err != nil {
 			V.HarnessError(rt, "send over the backend connection: %v", err)
 		}
